@@ -56,12 +56,15 @@ theorem witness_slice (E : Env) :
       [some (arrOf [arrOf [i 1], arrOf [i 2]]), some (i 1), none] :=
   ⟨_, _, rfl, rfl, by decide, rfl, by decide⟩
 
-/-- `mod(0.1, 1)` is the float `0.1`, declared `integer` (constant integer modulus):
-    `result_type:mod`. -/
-theorem witness_mod (E : Env) :
-    RefutesType E .mod [some (.lit (.float 0x3fb999999999999a)), some (.lit (i 1))]
-      [some (.float 0x3fb999999999999a), some (i 1)] :=
-  ⟨_, .float 0x3fb999999999999a, rfl, rfl, by decide,
+/-- FIXED (/repo cbab0ba; was `witness_mod`, class `result_type:mod`): `mod(0.1, 1)` is the
+    float `0.1`; the declared kind used to be `integer` (constant integer modulus), it is now the
+    kind of the dividend, `float`, and the value belongs to it. The general statement is
+    `C03.mod_sound`. -/
+theorem fixed_mod (E : Env) :
+    ∃ td v, declared .mod [some (.lit (.float 0x3fb999999999999a)), some (.lit (i 1))] = some td ∧
+      td.kind = Kind.float ∧ td.fallible = false ∧
+      model E .mod [some (.float 0x3fb999999999999a), some (i 1)] = .ok v ∧ memR v td.kind = true :=
+  ⟨_, .float 0x3fb999999999999a, rfl, rfl, rfl,
     (by show ofArith (Arith.tryRem (.float 0x3fb999999999999a) (.int 1)) = _; decide), by decide⟩
 
 /-- `compact(.p)` with `.p = []` is `[]`, declared `object` (the argument is not *exactly* an
@@ -106,12 +109,24 @@ theorem witness_encode_base64 (E : Env) :
       [some (.bytes [46]), none, some (.bytes [])] :=
   ⟨_, rfl, rfl, rfl, by decide, rfl⟩
 
-/-- `to_float(t'9999-12-31T23:59:59Z')`: the nanoseconds do not fit an `i64`
-    (`timestamp_nanos_opt()` is `None`), typed infallible: `infallible_err:to_float`. -/
-theorem witness_to_float (E : Env) :
-    RefutesInfallible E .toFloat [some (.lit (.ts 253402300799000000000))]
-      [some (.ts 253402300799000000000)] :=
-  ⟨_, rfl, rfl, rfl, by decide, rfl⟩
+/-- FIXED (/repo 3677b5b; was `witness_to_float`, class `infallible_err:to_float`):
+    `to_float(t'9999-12-31T23:59:59Z')` — the nanoseconds do not fit an `i64`
+    (`timestamp_nanos_opt()` is `None`), the call is typed infallible and used to return an
+    `OutOfRange` error; it now converts seconds and fraction separately: `253402300799.0`. The general
+    statement is `infallible_partial` (no `to_float` class any more). -/
+theorem fixed_to_float (E : Env) :
+    ∃ td, declared .toFloat [some (.lit (.ts 253402300799000000000))] = some td ∧ td.fallible = false ∧
+      model E .toFloat [some (.ts 253402300799000000000)] = .ok (.float 0x424d7ffa20bf8000) :=
+  ⟨_, rfl, rfl, by
+    simp only [model, un]
+    rw [show Round.toFloat E.parseF (.ts 253402300799000000000)
+      = Round.toFloat (fun _ => none) (.ts 253402300799000000000) from rfl]
+    decide +kernel⟩
+
+/-- `to_float` of a timestamp never errors, whatever the instant. -/
+theorem to_float_ts_total (E : Env) (ns : Int) : ∃ f, model E .toFloat [some (.ts ns)] = .ok (.float f) := by
+  simp only [model, un, Round.toFloat]
+  split <;> exact ⟨_, rfl⟩
 
 /-- `mod(x, 2.0)` with `x : float` at run time `+∞` (`inf % 2.0` is NaN → `NanFloat` error); the
     constant normal modulus makes the call infallible, the guard only looks at a CONSTANT dividend:
@@ -124,18 +139,17 @@ theorem witness_mod_inf (E : Env) :
 
 /-- the full-strength statements are false for the unchanged code -/
 theorem sound_fails (E : Env) :
-    ¬ Sound E .pop ∧ ¬ Sound E .slice ∧ ¬ Sound E .mod ∧ ¬ Sound E .compact ∧ ¬ Sound E .flatten ∧
+    ¬ Sound E .pop ∧ ¬ Sound E .slice ∧ ¬ Sound E .compact ∧ ¬ Sound E .flatten ∧
     ¬ Sound E .merge :=
-  ⟨not_sound_of (witness_pop E), not_sound_of (witness_slice E), not_sound_of (witness_mod E),
+  ⟨not_sound_of (witness_pop E), not_sound_of (witness_slice E),
    not_sound_of (witness_compact E), not_sound_of (witness_flatten E),
    not_sound_of (witness_merge_deep E)⟩
 
 theorem infallible_fails (E : Env) :
     ¬ Infallible E .fromEntries ∧ ¬ Infallible E .unflatten ∧ ¬ Infallible E .encodeBase64 ∧
-    ¬ Infallible E .toFloat ∧ ¬ Infallible E .mod :=
+    ¬ Infallible E .mod :=
   ⟨not_infallible_of (witness_from_entries E), not_infallible_of (witness_unflatten E),
-   not_infallible_of (witness_encode_base64 E), not_infallible_of (witness_to_float E),
-   not_infallible_of (witness_mod_inf E)⟩
+   not_infallible_of (witness_encode_base64 E), not_infallible_of (witness_mod_inf E)⟩
 
 /-! ### non-vacuity: calls that satisfy the hypotheses of the `_partial` theorems and return a value -/
 
@@ -214,6 +228,14 @@ example : CoveredInfallible .encodeBase64 [some (.lit (.bytes [46])), none, none
   ⟨_, ⟨rfl, rfl, by decide⟩, by decide, rfl⟩
 example : CoveredInfallible .toFloat [some (.lit (.ts 0))] [some (.ts 0)] :=
   ⟨_, ⟨rfl, rfl, by decide⟩, by decide, rfl⟩
+example : CoveredInfallible .toFloat [some (.lit (.ts 253402300799000000000))]
+    [some (.ts 253402300799000000000)] :=
+  ⟨_, ⟨rfl, rfl, by decide⟩, by decide, rfl⟩
+/-- `mod(0.1, 3)`: constant integer modulus, float dividend (covered since the fix) -/
+example (E : Env) : Covered E .mod [some (.lit (.float 0x3fb999999999999a)), some (.lit (i 3))]
+    [some (.float 0x3fb999999999999a), some (i 3)] :=
+  ⟨_, .float 0x3fb999999999999a, ⟨rfl, rfl, by decide⟩, by decide,
+    (by show ofArith (Arith.tryRem (.float 0x3fb999999999999a) (.int 3)) = _; decide)⟩
 example : CoveredInfallible .mod [some (.lit (i 5)), some (.lit (i 3))] [some (i 5), some (i 3)] :=
   ⟨_, ⟨rfl, rfl, by decide⟩, by decide, rfl⟩
 example : CoveredInfallible .mod [some (.lit (.float 0x3ff8000000000000)), some (.lit (.float 0x4000000000000000))]
